@@ -215,6 +215,44 @@ pub fn syntax(cex: &Value) -> Result<String, String> {
         }
       }
       let base = DIDUrl::parse("did:a:b/p?q#f").unwrap();
+      {
+        // once per battery run: what an accepted setter stores is its argument (a bare "/" is a path), one-character non-paths are
+        // refused, and URLs with a bare "/" path print as they were accepted
+        static ONCE: std::sync::atomic::AtomicBool = std::sync::atomic::AtomicBool::new(false);
+        if !ONCE.swap(true, std::sync::atomic::Ordering::SeqCst) {
+          for arg in ["/", "/a", "/a/", "//", "/%41"] {
+            let mut u = base.clone();
+            if u.set_path(Some(arg)).is_ok() && u.path() != Some(arg) {
+              log.push(format!("[setter] set_path({arg:?}) accepted but path() = {:?}", u.path()));
+            }
+          }
+          for arg in ["a", "?", "#", "%", "p"] {
+            let mut u = base.clone();
+            if u.set_path(Some(arg)).is_ok() {
+              log.push(format!("[setter] set_path({arg:?}) accepted although it is not a path (path() = {:?})", u.path()));
+            }
+          }
+          for (arg, body) in [("?a=1", "a=1"), ("a=1", "a=1"), ("?%41", "%41")] {
+            let mut u = base.clone();
+            if u.set_query(Some(arg)).is_ok() && u.query() != Some(body) {
+              log.push(format!("[setter] set_query({arg:?}) accepted but query() = {:?}", u.query()));
+            }
+          }
+          for (arg, body) in [("#k", "k"), ("k", "k"), ("#%41", "%41")] {
+            let mut u = base.clone();
+            if u.set_fragment(Some(arg)).is_ok() && u.fragment() != Some(body) {
+              log.push(format!("[setter] set_fragment({arg:?}) accepted but fragment() = {:?}", u.fragment()));
+            }
+          }
+          for text in ["did:a:b/", "did:a:b/?q", "did:a:b/#f", "did:a:b/?q#f", "did:a:b//"] {
+            if let Ok(u) = DIDUrl::parse(text) {
+              if u.to_string() != text || u.path() != Some(&text["did:a:b".len()..text.find(|c| c == '?' || c == '#').unwrap_or(text.len())]) {
+                log.push(format!("[setter] {text:?} is accepted but printed as {:?} with path {:?}", u.to_string(), u.path()));
+              }
+            }
+          }
+        }
+      }
       for (which, lead) in [("path", "/"), ("query", "?"), ("fragment", "#"), ("query", ""), ("fragment", "")] {
         let arg = format!("{lead}{t}");
         let mut u = base.clone();
